@@ -439,4 +439,14 @@ Section Fuel.
       try (intros a' b' Hab' j'; apply exec_le; [lia|exact Hab']);
       intros s' rows'; apply le_res_eq; apply exec_rows_ctx; auto.
   Qed.
+
+  (* the API entry point inherits monotonicity *)
+  Theorem api_run_mono n m wrapped doc q r :
+    api_run call join n wrapped doc q = r -> r <> OutOfModel -> n <= m ->
+    api_run call join m wrapped doc q = r.
+  Proof.
+    intros Hr Hn Hnm. subst r. symmetry. apply le_res_neq; [|exact Hn]. unfold api_run.
+    apply le_res_bind; [|intros; apply le_res_refl].
+    apply le_res_catch. apply exec_le; [exact Hnm|apply ctx_equiv_refl].
+  Qed.
 End Fuel.
